@@ -155,6 +155,25 @@ CLAIMED = {
              "are decided by the correspondence (all single-point corruptions of generated documents) with an independent oracle "
              "over the document tree; object identity is checked with `is` on the real graph.",
         design="§7 C17", technique="Lean 4 proof (fold invariants) + corruption-sweep correspondence check"),
+    "C09": dict(
+        text="PARTIAL. Proved (Lean mirror of every to_xml / from_xml over abstract XML trees): comparison_roundtrip, "
+             "condition_roundtrip, linear_adjustment_roundtrip (slope and intercept, which the library's own == ignores), "
+             "term_roundtrip / polynomial_roundtrip via the generic mapM_roundtrip, under the stated hypotheses that CPython's "
+             "str/int/float printing and parsing round-trip. The round trip of whole encodings, parameter types, containers and "
+             "the equality of decoding is not a theorem: it is decided by the correspondence — definitions built both ways "
+             "(loaded from independently written XML with units, empty descriptions, time types, unconditional inheritance; "
+             "assembled from objects) go through write/load/write/load/write on model and library, every stage is compared, and "
+             "an independent by-name structural comparison (incl. length adjustments) is the oracle.",
+        design="§7 C09", technique="Lean 4 proof (element-level round trips, generic list lemma) + staged write/load correspondence"),
+    "C15": dict(
+        text="PARTIAL. In the model toXml is a total function of the definition (no clock, no iteration-order freedom): "
+             "write_is_function. Proved: every element written for criteria of any nesting depth and for parameters lies in the "
+             "definition's XTCE namespace (comparison/condition/anded/ored/criterion/parameter_in_namespace, mutual structural "
+             "induction). The fix-point G2 = G3 and byte-level determinism are decided by the correspondence: the library writes "
+             "every definition twice with a fixed header date (bytes compared), G2 and G3 are compared byte for byte and as "
+             "trees against the model's, every element of G1 is checked to lie in the namespace, and a structural snapshot of the "
+             "definition is compared before and after writing.",
+        design="§7 C15", technique="Lean 4 proof (structural induction over writers) + staged write/load correspondence"),
 }
 
 NOT_YET = "check not built yet (work in progress; see DESIGN.md §11 build order)"
